@@ -78,22 +78,20 @@ PoolDef == PoolOn("A.", MeshA, MeshAx1, MeshAx2) @@ PoolOn("B.", MeshB, MeshBx1,
 
 Names == <<"S1", "S2", "SZ", "SE", "SL", "SC", "V2", "W2", "C2", "V3", "W3", "V4", "N1", "N2", "N3", "K2", "K3", "A1", "A2", "A3", "X1", "X2", "X3">>
 IsF(nm) == nm \notin {"N1", "N2", "N3", "K2", "K3", "A1", "A2", "A3"}
-Pairs(t, names, depth) == {<< <<<<t \o names[i], -1>>, <<t \o names[j], -1>>>>, depth>> :
-                              i \in DOMAIN names, j \in DOMAIN names} 
-PairsLE(t, names, depth) == UNION {{<< <<<<t \o names[i], -1>>, <<t \o names[j], -1>>>>, depth>> :
+Dp(depth) == [d |-> depth, x |-> {}]
+PairsLE(t, names, depth) == UNION {{<< <<<<t \o names[i], -1>>, <<t \o names[j], -1>>>>, Dp(depth)>> :
                                         j \in {jj \in DOMAIN names : i <= jj /\ (IsF(names[i]) \/ IsF(names[jj]))}} : i \in DOMAIN names}
-Triple(t, a, b, c, depth) == << <<<<t \o a, -1>>, <<t \o b, -1>>, <<t \o c, -1>>>>, depth>>
+Triple(t, a, b, c, depth) == << <<<<t \o a, -1>>, <<t \o b, -1>>, <<t \o c, -1>>>>, Dp(depth)>>
 
-QuickNames == <<"S1", "S2", "SL", "SC", "V2", "W2", "V3", "W3", "N1", "N3", "K2", "K3", "A2", "X1", "X2">>
-Init_quick == PairsLE("A.", QuickNames, 1)
-              \cup PairsLE("B.", <<"S2", "SC", "V3", "W3", "V2", "N2", "K3", "A3", "X3">>, 1)
-              \cup {Triple("A.", "S1", "W2", "N1", 2), Triple("A.", "V2", "S2", "K2", 2), Triple("B.", "W3", "V3", "S2", 2)}
+Init_quick == PairsLE("A.", <<"S1", "S2", "SL", "SC", "V2", "W2", "V3", "N1", "N3", "K2", "A2", "X1", "X2">>, 1)
+              \cup PairsLE("B.", <<"S2", "V3", "W3", "K3", "A3", "X3">>, 1)
+              \cup {Triple("A.", "S1", "W2", "N1", 2)}
 Init_thorough == PairsLE("A.", Names, 1) \cup PairsLE("B.", Names, 1) \cup PairsLE("C.", Names, 1)
               \cup {Triple("A.", "S1", "W2", "N1", 3), Triple("A.", "V2", "S2", "K2", 3), Triple("B.", "W3", "V3", "S2", 3),
                     Triple("A.", "SC", "C2", "N3", 2), Triple("A.", "V3", "S1", "A3", 2), Triple("B.", "V3", "SL", "K3", 2),
                     Triple("C.", "V3", "S2", "V2", 2), Triple("A.", "S2", "SE", "V4", 2)}
 
-OpsC03 == {"neg", "pos", "abs", "real", "imag", "conj", "cabs", "norm", "orientation",
+OpsC03 == {"neg", "pos", "abs", "real", "imag", "conj", "cabs",
            "add", "sub", "mul", "div", "pow", "dot", "cross", "angle", "lshift", "comp", "restack", "ufunc1", "ufunc2"}
 NoMasks == {}
 NoModes == {}
